@@ -135,8 +135,85 @@ Proof.
   exists s. split; assumption.
 Qed.
 
+(* ---- the inodes and the fragment table ----
+   The three places that update an inode (append on the front end, process_completed_fragment when a
+   tail end leaves the pool, process_completed_block when a block is written) interleave differently for
+   different backlogs and schedules.  Nevertheless every field of every inode after the run -- type
+   (basic/extended), file size, sparse byte count, block start, fragment index and offset, block size
+   list -- and the whole fragment table are the functions [spec_inodes] / [spec_ftbl] of the file list
+   defined in C02/BpSpec.v from the in-order specification (no pool, no backlog). *)
+Definition inodes_of (bs : N) (ht0 : HT) (bw0 : BW) (files : list file) : N -> inode :=
+  spec_inodes hash compress HT ht_search ht_insert BW bw_write bs ht0 bw0 files.
+
+Definition ftbl_of (bs : N) (ht0 : HT) (bw0 : BW) (files : list file) : list (N * N) :=
+  spec_ftbl hash compress HT ht_search ht_insert BW bw_write bs ht0 bw0 files.
+
+Theorem bp_inodes_refine_spec :
+  forall (pool : fifo_pool) (p0 : fp_state pool) bs backlog ht0 bw0 files,
+  fp_alpha pool p0 = [] -> 0 < bs -> Forall file_ok files ->
+  exists s, run_on pool p0 bs backlog ht0 bw0 files = Ok s /\
+            (forall k, s_ino _ _ _ s k = inodes_of bs ht0 bw0 files k) /\
+            s_ftbl _ _ _ s = ftbl_of bs ht0 bw0 files.
+Proof.
+  intros pool p0 bs backlog ht0 bw0 files H1 H2 H3.
+  destruct (run_refines_spec_full hash compress HT ht_search ht_insert BW bw_write (fp_state pool)
+           (fp_submit pool) (fp_dequeue pool) bs (clamp_backlog backlog) bw0 (fp_alpha pool)
+           (fp_submit_ok pool) (fp_deq_cons pool) (clamp_ge3 backlog) p0 ht0 files H1 H2 H3)
+    as (s & A & _ & _ & B & C).
+  exists s. split; [exact A|]. split; [exact B|exact C].
+Qed.
+
+(* pool, worker count, schedule and backlog are irrelevant for every inode and for the fragment table *)
+Theorem bp_inodes_schedule_backlog_irrelevant :
+  forall (pool : fifo_pool) (p0 : fp_state pool) bs q ht0 bw0 files,
+  fp_alpha pool p0 = [] -> 0 < bs -> Forall file_ok files ->
+  exists s sref,
+    run_on pool p0 bs q ht0 bw0 files = Ok s /\
+    run_on serial_pool [] bs 0 ht0 bw0 files = Ok sref /\
+    (forall k, s_ino _ _ _ s k = s_ino _ _ _ sref k) /\ s_ftbl _ _ _ s = s_ftbl _ _ _ sref.
+Proof.
+  intros pool p0 bs q ht0 bw0 files Hp Hbs Hf.
+  destruct (bp_inodes_refine_spec pool p0 bs q ht0 bw0 files Hp Hbs Hf) as (s1 & A1 & A2 & A3).
+  destruct (bp_inodes_refine_spec serial_pool [] bs 0 ht0 bw0 files eq_refl Hbs Hf) as (s2 & B1 & B2 & B3).
+  exists s1, s2. split; [exact A1|]. split; [exact B1|].
+  split; [intro k; rewrite A2, B2; reflexivity|rewrite A3, B3; reflexivity].
+Qed.
+
+(* ... i.e. there are two functions of the file list that every run computes *)
+Theorem inodes_are_function_of_input :
+  forall bs ht0 bw0, 0 < bs ->
+  exists (F : list file -> N -> inode) (G : list file -> list (N * N)),
+  forall (pool : fifo_pool) (p0 : fp_state pool) q files,
+    fp_alpha pool p0 = [] -> Forall file_ok files ->
+    exists s, run_on pool p0 bs q ht0 bw0 files = Ok s /\
+              (forall k, s_ino _ _ _ s k = F files k) /\ s_ftbl _ _ _ s = G files.
+Proof.
+  intros bs ht0 bw0 Hbs. exists (inodes_of bs ht0 bw0), (ftbl_of bs ht0 bw0). intros pool p0 q files Hp Hf.
+  exact (bp_inodes_refine_spec pool p0 bs q ht0 bw0 files Hp Hbs Hf).
+Qed.
+
+(* the inode type after the run is the smallest that can hold the inode: extended exactly if the file
+   has sparse bytes or its size or block start need more than 32 bits -- whatever the order in which
+   the three fields received their values *)
+Theorem inode_type_is_minimal :
+  forall (pool : fifo_pool) (p0 : fp_state pool) bs q ht0 bw0 files s k,
+  fp_alpha pool p0 = [] -> 0 < bs -> Forall file_ok files ->
+  run_on pool p0 bs q ht0 bw0 files = Ok s ->
+  i_ext (s_ino _ _ _ s k) =
+    (0 <? i_sparse (s_ino _ _ _ s k)) || (U32MAX <? i_size (s_ino _ _ _ s k)) || (U32MAX <? i_start (s_ino _ _ _ s k)).
+Proof.
+  intros pool p0 bs q ht0 bw0 files s k Hp Hbs Hf Hrun.
+  destruct (bp_inodes_refine_spec pool p0 bs q ht0 bw0 files Hp Hbs Hf) as (s1 & A1 & A2 & _).
+  rewrite Hrun in A1. inversion A1; subst s1. rewrite A2.
+  exact (spec_inodes_type hash compress HT ht_search ht_insert BW bw_write bs bw0 ht0 files k).
+Qed.
+
 End Statements.
 Print Assumptions bp_refines_spec.
+Print Assumptions bp_inodes_refine_spec.
+Print Assumptions bp_inodes_schedule_backlog_irrelevant.
+Print Assumptions inodes_are_function_of_input.
+Print Assumptions inode_type_is_minimal.
 Print Assumptions bp_backlog_irrelevant.
 Print Assumptions bp_schedule_irrelevant.
 Print Assumptions io_order.
@@ -187,6 +264,33 @@ Example ex_backlog_3_40 : ex_blocks 3 = ex_blocks 40 /\
   option_map (map (fun x => snd (fst (fst x)))) (ex_blocks 3) =
   Some [2048; 0; 4096; 16384; 2048; 0; 0; 4096; 1024 + 2048; 4096; 16384] /\
   option_map (@length _) (ex_blocks 1) = Some 11%nat.
+Proof. vm_compute. repeat split; reflexivity. Qed.
+
+(* the inodes of the same six files (and of a seventh that does not exist): identical for backlog 1, 3
+   and 40, equal to what [spec_inodes] / [spec_ftbl] compute without any pool; file 1 has two data blocks
+   and its tail in fragment block 0 at offset 2, file 3 has a block start, file 5 is sparse and therefore
+   the only extended inode *)
+Definition ex_inodes (q : N) : option (list inode * list (N * N)) :=
+  match run_concrete sum_hash 4 q ex_files with
+  | Ok s => Some (map (obs_inodes s) [0; 1; 2; 3; 4; 5; 6], obs_ftbl s)
+  | _ => None
+  end.
+
+Example ex_inodes_1_3_40 :
+  ex_inodes 1 = ex_inodes 3 /\ ex_inodes 3 = ex_inodes 40 /\
+  ex_inodes 40 =
+    Some (map (spec_inodes sum_hash toy_compress cht cht_search cht_insert cbw cbw_write 4 [] (mkBw [] [] O) ex_files)
+              [0; 1; 2; 3; 4; 5; 6],
+          spec_ftbl sum_hash toy_compress cht cht_search cht_insert cbw cbw_write 4 [] (mkBw [] [] O) ex_files) /\
+  ex_inodes 3 =
+    Some ([ mkI false 2 0 0 0 0 [];
+            mkI false 10 0 0 0 2 [16777220; 16777220];
+            mkI false 1 0 0 1 0 [];
+            mkI false 12 0 12 U32MAX U32MAX [16777220; 16777220; 16777220];
+            mkI false 3 0 0 1 1 [];
+            mkI true 6 6 0 U32MAX U32MAX [0; 0];
+            new_inode ],
+          [(8, 16777220); (24, 16777220)]).
 Proof. vm_compute. repeat split; reflexivity. Qed.
 
 (* the FIFO hypothesis is not decoration: a pool that hands back the newest item first makes the same
